@@ -464,7 +464,13 @@ class SchedulingSolver(BaseModelWithJson):
         # in case of a single value to optimize
         if self._is_multi_objective_optimization_problem:
             if self.optimizer == "incremental" or self.optimize_priority == "weight":
-                self.build_equivalent_weighted_objective()
+                equivalent_objective, _ = self.build_equivalent_weighted_objective()
+                if self.optimizer == "optimize":
+                    # the builtin optimizer has to be told about the weighted objective
+                    if equivalent_objective.kind == "maximize":
+                        self._solver.maximize(equivalent_objective._target)
+                    else:
+                        self._solver.minimize(equivalent_objective._target)
             else:
                 for obj in self.problem.objectives.values():
                     variable_to_optimize = obj._target
